@@ -120,6 +120,21 @@ func runProperty(p *Prog, id, tier string, cfg SolverCfg, verifDir, outDir strin
 		}
 	}
 
+	// the witness-search driver (bounded, on the real code) runs beside the proof in both tiers; its answer is used
+	// after a failed obligation (to attach a failing input) and, when every obligation is discharged, as a bounded
+	// cross-check of the contracts against the statement
+	type replayRes struct {
+		found      bool
+		input, out string
+	}
+	var replayCh chan replayRes
+	if meta.ReplayTest != "" && os.Getenv("VERIF_NO_WITNESS") == "" {
+		replayCh = make(chan replayRes, 1)
+		go func() {
+			f, in, out := runReplay(p.repo, verifDir, id, meta, seed, "", "")
+			replayCh <- replayRes{f, in, out}
+		}()
+	}
 	var keys []string
 	for k, c := range p.cs.Funcs {
 		if c.Kind == "func" && contractServes(c, id) {
@@ -275,7 +290,12 @@ func runProperty(p *Prog, id, tier string, cfg SolverCfg, verifDir, outDir strin
 		// replay on the real code (one driver run per property and check)
 		if meta.ReplayTest != "" && !replayDone {
 			replayDone = true
-			replayFound, replayInput, replayOut = runReplay(p.repo, verifDir, id, meta, seed, v.Model, "")
+			if replayCh != nil {
+				r := <-replayCh
+				replayFound, replayInput, replayOut = r.found, r.input, r.out
+			} else {
+				replayFound, replayInput, replayOut = runReplay(p.repo, verifDir, id, meta, seed, v.Model, "")
+			}
 		}
 		v.Found, v.Input = replayFound, replayInput
 		rp := filepath.Join(outDir, "replays", id, sanitize(v.Obligation)+".json")
@@ -301,9 +321,14 @@ func runProperty(p *Prog, id, tier string, cfg SolverCfg, verifDir, outDir strin
 	// thorough tier: the witness search also runs when every obligation is discharged - a bounded cross-check of the
 	// contracts against the statement on the real code; a failing input is a violation with a replayable input
 	witnessInfo := map[string]interface{}{"driver": meta.ReplayTest, "ran": replayDone}
-	if meta.ReplayTest != "" && !replayDone && tier == "thorough" {
+	if meta.ReplayTest != "" && !replayDone && (tier == "thorough" || replayCh != nil) {
 		replayDone = true
-		replayFound, replayInput, replayOut = runReplay(p.repo, verifDir, id, meta, seed, "", "")
+		if replayCh != nil {
+			r := <-replayCh
+			replayFound, replayInput, replayOut = r.found, r.input, r.out
+		} else {
+			replayFound, replayInput, replayOut = runReplay(p.repo, verifDir, id, meta, seed, "", "")
+		}
 		witnessInfo["ran"] = true
 		if replayFound {
 			nViol++
@@ -317,7 +342,12 @@ func runProperty(p *Prog, id, tier string, cfg SolverCfg, verifDir, outDir strin
 			fmt.Printf("VIOLATION property=%s replay=%s\n  witness search: %s\n    %s\n", id, rp, truncate(replayInput, 300), truncate(grepLine(replayOut, "REPLAY-WHAT "), 300))
 			exit = 1
 		} else if !strings.Contains(replayOut, "REPLAY-STATS") {
-			broken = append(broken, "the witness-search driver did not finish: "+truncate(lastLines(replayOut, 12), 800))
+			if tier == "thorough" {
+				broken = append(broken, "the witness-search driver did not finish: "+truncate(lastLines(replayOut, 12), 800))
+			} else {
+				// supplementary in the quick tier: recorded, not a verdict
+				witnessInfo["did_not_finish"] = truncate(lastLines(replayOut, 6), 400)
+			}
 		}
 	}
 	if replayDone {
